@@ -310,6 +310,7 @@ impl InMemoryStoreInner {
             assert(old(self).header_ranges@.disjoint(iv(lo, hi)));
             assert(old(self).hdr((lo - 1) as u64).h == lo - 1 || !(lo >= 2 && old(self).header_ranges@.contains(lo - 1)));
             assert(boundary_ok(*old(self), hs, lo, hi));
+            assert(ins_pre(*old(self), hs, lo, hi)) by { reveal(ins_pre); }
         }
 //@ascribe "let mut batch_hashes = HashSet::with_capacity(headers.as_ref().len());" => "let mut batch_hashes: HashSet<Hash> = HashSet::with_capacity(headers.as_ref().len());"
 //@sub E7 "for header in headers.as_ref() {"
@@ -317,9 +318,7 @@ impl InMemoryStoreInner {
         while __p < headers.as_ref().len()
             invariant
                 vstd::std_specs::hash::obeys_key_model::<Hash>(),
-                __p <= hs.len(), hs == headers.0@, self.inv(), self.same(old(self)),
-                hs.len() > 0, lo == hs[0].h, hi == lo + hs.len() - 1, hi <= u64::MAX, lo >= 1, chain_ok(hs), headers_range@.start == lo, headers_range@.end == hi, !headers_range@.exhausted,
-                old(self).header_ranges@.disjoint(iv(lo, hi)), boundary_ok(*old(self), hs, lo, hi),
+                __p <= hs.len(), hs == headers.0@, self.same(old(self)), ins_pre(*old(self), hs, lo, hi),
                 forall|j: int| 0 <= j < __p ==> !old(self).headers@.contains_key(#[trigger] hs[j].hash_),
                 forall|j: int| 0 <= j < __p ==> batch_hashes@.contains(#[trigger] hs[j].hash_),
                 forall|k: Hash| batch_hashes@.contains(k) ==> in_batch(hs, __p as int, k),
@@ -329,6 +328,8 @@ impl InMemoryStoreInner {
             let header = &headers.as_ref()[__p]; __p += 1;
 //@hint before "if self.headers.contains_key(&hash) || !batch_hashes.insert(hash) {"
             let ghost set_before = batch_hashes@;
+//@hint before "return Err(StoreInsertionError::HashExists(hash).into());" 1
+                proof { reveal(ins_pre); }
 //@hint after "return Err(StoreInsertionError::HashExists(hash).into());" 1
             }
             proof {
@@ -350,28 +351,27 @@ impl InMemoryStoreInner {
             }
             if false {
 //@sub E7 "for header in headers.into_iter() {"
-        proof { reveal(tables_upto); assert(tables_upto(old(self).headers@, old(self).height_to_hash@, self.headers@, self.height_to_hash@, hs, lo, 0)); }
+        proof {
+            assert(hashes_fresh(*old(self), hs)) by { reveal(hashes_fresh); }
+            reveal(tables_upto); assert(tables_upto(old(self).headers@, old(self).height_to_hash@, self.headers@, self.height_to_hash@, hs, lo, 0));
+        }
         let mut __q: usize = 0;
         while __q < headers.0.len()
             invariant
                 vstd::std_specs::hash::obeys_key_model::<Hash>(),
-                __q <= hs.len(), hs == headers.0@, hs.len() > 0, lo == hs[0].h, hi == lo + hs.len() - 1, hi <= u64::MAX, lo >= 1,
-                chain_ok(hs), headers_range@.start == lo, headers_range@.end == hi, !headers_range@.exhausted,
-                old(self).inv(), boundary_ok(*old(self), hs, lo, hi),
-                old(self).header_ranges@.disjoint(iv(lo, hi)),
+                __q <= hs.len(), hs == headers.0@,
+                ins_pre(*old(self), hs, lo, hi), hashes_fresh(*old(self), hs),
+                headers_range@.start == lo, headers_range@.end == hi, !headers_range@.exhausted,
                 self.header_ranges.0@ == old(self).header_ranges.0@ && self.sampled_ranges.0@ == old(self).sampled_ranges.0@ && self.pruned_ranges.0@ == old(self).pruned_ranges.0@,
                 self.sampling_data@ == old(self).sampling_data@,
-                forall|j: int| 0 <= j < hs.len() ==> !old(self).headers@.contains_key(#[trigger] hs[j].hash_),
-                forall|a: int, b: int| 0 <= a < b < hs.len() ==> (#[trigger] hs[a]).hash_ != (#[trigger] hs[b]).hash_,
                 // the two tables hold the old content plus the first __q headers of the batch
                 tables_upto(old(self).headers@, old(self).height_to_hash@, self.headers@, self.height_to_hash@, hs, lo, __q as int),
             decreases hs.len() - __q
         {
             let header = headers.0[__q].clone(); __q += 1;
-            proof { lemma_chain_heights(hs, __q as int - 1); }
 //@hint before "debug_assert!("
             proof {
-                lemma_tables_fresh(*old(self), self.headers@, self.height_to_hash@, hs, lo, hi, __q as int - 1);
+                lemma_tables_fresh2(*old(self), self.headers@, self.height_to_hash@, hs, lo, hi, __q as int - 1);
             }
             let ghost hdrs_before = self.headers@; let ghost h2h_before = self.height_to_hash@;
 //@hint after "self.height_to_hash.insert(height, hash);"
@@ -379,12 +379,11 @@ impl InMemoryStoreInner {
                 lemma_tables_step(old(self).headers@, old(self).height_to_hash@, hdrs_before, h2h_before, self.headers@, self.height_to_hash@, hs, lo, __q as int);
             }
 //@hint before "self.header_ranges .insert_relaxed(&headers_range) .expect(\"invalid range\");"
-        let ghost mid_headers = self.headers@; let ghost mid_h2h = self.height_to_hash@;
+        proof { assert(old(self).header_ranges.wf() && old(self).sampled_ranges.wf() && old(self).pruned_ranges.wf() && lo >= 1 && lo <= hi) by { reveal(ins_pre); } }
 //@hint before "Ok(())" last
         proof {
             assert(r_set(headers_range) =~= iv(lo, hi));
-            assert(tables_after(*old(self), *self, hs, lo)) by { reveal(tables_upto); }
-            lemma_insert_final(*old(self), *self, hs, lo, hi);
+            lemma_insert_final2(*old(self), *self, hs, lo, hi);
         }
 //@end
 
@@ -503,7 +502,45 @@ pub proof fn lemma_tables_step(oh: Map<Hash, ExtendedHeader>, o2: Map<u64, Hash>
         if j < q - 1 { assert(n2.contains_key((lo + j) as u64)); }
     }
 }
-pub proof fn lemma_insert_final(o: InMemoryStoreInner, n: InMemoryStoreInner, hs: Seq<ExtendedHeader>, lo: int, hi: int)
+// everything `insert` established before its two loops (static during the loops; opaque so that the loop queries stay small)
+#[verifier::opaque]
+pub open spec fn ins_pre(o: InMemoryStoreInner, hs: Seq<ExtendedHeader>, lo: int, hi: int) -> bool {
+    &&& o.inv() && hs.len() > 0 && chain_ok(hs) && lo == hs[0].h && hi == lo + hs.len() - 1 && hi <= u64::MAX && lo >= 1
+    &&& o.header_ranges@.disjoint(iv(lo, hi)) && boundary_ok(o, hs, lo, hi)
+}
+// the outcome of the duplicate pre-check loop
+#[verifier::opaque]
+pub open spec fn hashes_fresh(o: InMemoryStoreInner, hs: Seq<ExtendedHeader>) -> bool {
+    &&& forall|j: int| 0 <= j < hs.len() ==> !o.headers@.contains_key(#[trigger] hs[j].hash_)
+    &&& forall|a: int, b: int| 0 <= a < b < hs.len() ==> (#[trigger] hs[a]).hash_ != (#[trigger] hs[b]).hash_
+}
+pub proof fn lemma_tables_fresh2(o: InMemoryStoreInner, nh: Map<Hash, ExtendedHeader>, n2: Map<u64, Hash>, hs: Seq<ExtendedHeader>, lo: int, hi: int, q: int)
+    requires ins_pre(o, hs, lo, hi), hashes_fresh(o, hs), 0 <= q < hs.len(), tables_upto(o.headers@, o.height_to_hash@, nh, n2, hs, lo, q),
+    ensures hs[q].h == lo + q, !nh.contains_key(hs[q].hash_), !n2.contains_key(hs[q].h), lo >= 1, lo + hs.len() - 1 <= u64::MAX,
+{
+    reveal(ins_pre); reveal(hashes_fresh);
+    lemma_tables_fresh(o, nh, n2, hs, lo, hi, q);
+}
+pub proof fn lemma_insert_final2(o: InMemoryStoreInner, n: InMemoryStoreInner, hs: Seq<ExtendedHeader>, lo: int, hi: int)
+    requires
+        ins_pre(o, hs, lo, hi), hashes_fresh(o, hs),
+        n.header_ranges.wf(), n.header_ranges@ == o.header_ranges@.union(iv(lo, hi)),
+        n.sampled_ranges.wf(), n.sampled_ranges@ == o.sampled_ranges@.difference(iv(lo, hi)),
+        n.pruned_ranges.wf(), n.pruned_ranges@ == o.pruned_ranges@.difference(iv(lo, hi)),
+        tables_upto(o.headers@, o.height_to_hash@, n.headers@, n.height_to_hash@, hs, lo, hs.len() as int),
+    ensures
+        n.inv(),
+        hi == lo + hs.len() - 1, lo == hs[0].h, hi == hs.last().h, o.header_ranges@.disjoint(iv(lo, hi)),
+        forall|j: int| 0 <= j < hs.len() ==> n.hdr((lo + j) as u64) == #[trigger] hs[j],
+        forall|h: u64| o.header_ranges@.contains(h as int) ==> n.hdr(h) == o.hdr(h),
+        o.linked() ==> n.linked(),
+{
+    reveal(ins_pre); reveal(hashes_fresh);
+    lemma_chain_heights(hs, hs.len() as int - 1);
+    assert(tables_after(o, n, hs, lo)) by { reveal(tables_upto); }
+    lemma_insert_final(o, n, hs, lo, hi);
+}
+pub proof fn lemma_insert_inv(o: InMemoryStoreInner, n: InMemoryStoreInner, hs: Seq<ExtendedHeader>, lo: int, hi: int)
     requires
         o.inv(), hs.len() > 0, chain_ok(hs), lo == hs[0].h, hi == lo + hs.len() - 1, 1 <= lo, hi <= u64::MAX,
         o.header_ranges@.disjoint(iv(lo, hi)),
@@ -513,11 +550,7 @@ pub proof fn lemma_insert_final(o: InMemoryStoreInner, n: InMemoryStoreInner, hs
         forall|j: int| 0 <= j < hs.len() ==> !o.headers@.contains_key(#[trigger] hs[j].hash_),
         forall|a: int, b: int| 0 <= a < b < hs.len() ==> (#[trigger] hs[a]).hash_ != (#[trigger] hs[b]).hash_,
         tables_after(o, n, hs, lo),
-    ensures
-        n.inv(),
-        forall|j: int| 0 <= j < hs.len() ==> n.hdr((lo + j) as u64) == #[trigger] hs[j],
-        forall|h: u64| o.header_ranges@.contains(h as int) ==> n.hdr(h) == o.hdr(h),
-        o.linked() && boundary_ok(o, hs, lo, hi) ==> n.linked(),
+    ensures n.inv()
 {
     let q = hs.len() as int;
     assert forall|j: int| 0 <= j < q implies hs[j].h == lo + j by { lemma_chain_heights(hs, j); }
@@ -564,6 +597,22 @@ pub proof fn lemma_insert_final(o: InMemoryStoreInner, n: InMemoryStoreInner, hs
     }
     assert(n.sampled_ranges@.subset_of(n.header_ranges@));
     assert(n.pruned_ranges@.disjoint(n.header_ranges@));
+}
+pub proof fn lemma_insert_view(o: InMemoryStoreInner, n: InMemoryStoreInner, hs: Seq<ExtendedHeader>, lo: int, hi: int)
+    requires
+        o.inv(), hs.len() > 0, chain_ok(hs), lo == hs[0].h, hi == lo + hs.len() - 1, 1 <= lo, hi <= u64::MAX,
+        o.header_ranges@.disjoint(iv(lo, hi)),
+        n.header_ranges.wf(), n.header_ranges@ == o.header_ranges@.union(iv(lo, hi)),
+        n.sampled_ranges.wf(), n.sampled_ranges@ == o.sampled_ranges@.difference(iv(lo, hi)),
+        n.pruned_ranges.wf(), n.pruned_ranges@ == o.pruned_ranges@.difference(iv(lo, hi)),
+        forall|j: int| 0 <= j < hs.len() ==> !o.headers@.contains_key(#[trigger] hs[j].hash_),
+        forall|a: int, b: int| 0 <= a < b < hs.len() ==> (#[trigger] hs[a]).hash_ != (#[trigger] hs[b]).hash_,
+        tables_after(o, n, hs, lo),
+    ensures
+        forall|j: int| 0 <= j < hs.len() ==> n.hdr((lo + j) as u64) == #[trigger] hs[j],
+        forall|h: u64| o.header_ranges@.contains(h as int) ==> n.hdr(h) == o.hdr(h),
+{
+    let q = hs.len() as int;
     // functional view
     assert forall|j: int| 0 <= j < q implies n.hdr((lo + j) as u64) == #[trigger] hs[j] by {
         assert(n.height_to_hash@[(lo + j) as u64] == hs[j].hash_);
@@ -575,6 +624,25 @@ pub proof fn lemma_insert_final(o: InMemoryStoreInner, n: InMemoryStoreInner, hs
         assert(n.height_to_hash@[h] == k);
         assert(n.headers@[k] == o.headers@[k]);
     }
+}
+pub proof fn lemma_insert_linked(o: InMemoryStoreInner, n: InMemoryStoreInner, hs: Seq<ExtendedHeader>, lo: int, hi: int)
+    requires
+        o.inv(), hs.len() > 0, chain_ok(hs), lo == hs[0].h, hi == lo + hs.len() - 1, 1 <= lo, hi <= u64::MAX,
+        o.header_ranges@.disjoint(iv(lo, hi)),
+        n.header_ranges.wf(), n.header_ranges@ == o.header_ranges@.union(iv(lo, hi)),
+        n.sampled_ranges.wf(), n.sampled_ranges@ == o.sampled_ranges@.difference(iv(lo, hi)),
+        n.pruned_ranges.wf(), n.pruned_ranges@ == o.pruned_ranges@.difference(iv(lo, hi)),
+        forall|j: int| 0 <= j < hs.len() ==> !o.headers@.contains_key(#[trigger] hs[j].hash_),
+        forall|a: int, b: int| 0 <= a < b < hs.len() ==> (#[trigger] hs[a]).hash_ != (#[trigger] hs[b]).hash_,
+        tables_after(o, n, hs, lo),
+        o.linked(), boundary_ok(o, hs, lo, hi),
+        forall|j: int| 0 <= j < hs.len() ==> n.hdr((lo + j) as u64) == #[trigger] hs[j],
+        forall|h: u64| o.header_ranges@.contains(h as int) ==> n.hdr(h) == o.hdr(h),
+    ensures n.linked()
+{
+    let q = hs.len() as int;
+    assert forall|j: int| 0 <= j < q implies hs[j].h == lo + j by { lemma_chain_heights(hs, j); }
+    assert forall|h: u64| #![trigger n.height_to_hash@.contains_key(h)] n.height_to_hash@.contains_key(h) <==> (o.height_to_hash@.contains_key(h) || lo <= h < lo + q) by {}
     // links
     if o.linked() && boundary_ok(o, hs, lo, hi) {
         assert forall|h: u64| #![trigger n.height_to_hash@.contains_key(h)] h < u64::MAX && n.height_to_hash@.contains_key(h) && n.height_to_hash@.contains_key((h + 1) as u64)
@@ -604,6 +672,26 @@ pub proof fn lemma_insert_final(o: InMemoryStoreInner, n: InMemoryStoreInner, hs
             }
         }
     }
+}
+pub proof fn lemma_insert_final(o: InMemoryStoreInner, n: InMemoryStoreInner, hs: Seq<ExtendedHeader>, lo: int, hi: int)
+    requires
+        o.inv(), hs.len() > 0, chain_ok(hs), lo == hs[0].h, hi == lo + hs.len() - 1, 1 <= lo, hi <= u64::MAX,
+        o.header_ranges@.disjoint(iv(lo, hi)),
+        n.header_ranges.wf(), n.header_ranges@ == o.header_ranges@.union(iv(lo, hi)),
+        n.sampled_ranges.wf(), n.sampled_ranges@ == o.sampled_ranges@.difference(iv(lo, hi)),
+        n.pruned_ranges.wf(), n.pruned_ranges@ == o.pruned_ranges@.difference(iv(lo, hi)),
+        forall|j: int| 0 <= j < hs.len() ==> !o.headers@.contains_key(#[trigger] hs[j].hash_),
+        forall|a: int, b: int| 0 <= a < b < hs.len() ==> (#[trigger] hs[a]).hash_ != (#[trigger] hs[b]).hash_,
+        tables_after(o, n, hs, lo),
+    ensures
+        n.inv(),
+        forall|j: int| 0 <= j < hs.len() ==> n.hdr((lo + j) as u64) == #[trigger] hs[j],
+        forall|h: u64| o.header_ranges@.contains(h as int) ==> n.hdr(h) == o.hdr(h),
+        o.linked() && boundary_ok(o, hs, lo, hi) ==> n.linked(),
+{
+    lemma_insert_inv(o, n, hs, lo, hi);
+    lemma_insert_view(o, n, hs, lo, hi);
+    if o.linked() && boundary_ok(o, hs, lo, hi) { lemma_insert_linked(o, n, hs, lo, hi); }
 }
 //@end-export
 } // verus!
